@@ -9,6 +9,7 @@ Monitor: exit status and stderr of `yardl validate` and `yardl generate`.
 Oracle: exit 1 (not 0, not a crash) and some error names the file that contains the violation."""
 from __future__ import annotations
 
+import json
 import os
 import shutil
 
@@ -128,6 +129,32 @@ DEF_RULES = [
     ("unknown-record-key", True, "R1: !record\n  fields:\n    a: int\n  bogusKey: 1\n"),
     ("unknown-tag", True, "R1: !bogus\n  fields:\n    a: int\n"),
 ]
+
+# the naming rule, one ill-formed name per case in every kind of position where a name is given. The documented patterns are ASCII-only
+# (^[a-z][a-zA-Z0-9]{0,63}$ for members, ^[A-Z][a-zA-Z0-9]{0,63}$ for types): wrong first-letter case, separators, leading digits, non-ASCII letters
+# and digits of several scripts, one character too long.
+BAD_MEMBER_NAMES = ["BadName", "bad_name", "bad-name", "1bad", "_bad", "t\u00e4g", "twic\u00e9", "\u00e4gypten", "\u043c\u0435\u0442\u043a\u0438", "tags\u0663", "\u03b1lpha", "na\u00efve", "b" * 65, "\uff41bc"]
+BAD_TYPE_NAMES = ["badType", "Bad_Type", "Bad-Type", "1Bad", "_Bad", "B\u00f6x", "\u0164ype", "\u0422\u0438\u043f", "\u00c4rger", "Caf\u00e9", "B" * 65, "\uff21bc", "Type\u0663"]
+_NAME_SHAPES = {
+    "field": ("m", "R1: !record\n  fields:\n    %s: int\n"),
+    "computed": ("m", "R1: !record\n  fields:\n    a: int\n  computedFields:\n    %s: a\n"),
+    "step": ("m", "P1: !protocol\n  sequence:\n    %s: int\n"),
+    "enum-symbol": ("m", "E1: !enum\n  values:\n    %s: 1\n    ok: 2\n"),
+    "flags-symbol": ("m", "F1: !flags\n  values:\n    %s: 1\n    ok: 2\n"),
+    "union-tag": ("m", "U1: !union\n  %s: int\n  other: string\n"),
+    "dimension": ("m", "R1: !record\n  fields:\n    a: !array\n      items: int\n      dimensions: [%s, ok]\n"),
+    "type": ("t", "%s: int\n"),
+    "record": ("t", "%s: !record\n  fields:\n    a: int\n"),
+    "protocol": ("t", "%s: !protocol\n  sequence:\n    a: int\n"),
+    "enum": ("t", "%s: !enum\n  values: [sa, sb]\n"),
+}
+NAME_RULES = []
+for _pos, (_kind, _tpl) in _NAME_SHAPES.items():
+    for _nm in (BAD_MEMBER_NAMES if _kind == "m" else BAD_TYPE_NAMES):
+        NAME_RULES.append(("name:%s:%s" % (_pos, _nm if len(_nm) < 30 else _nm[:3] + "x%d" % len(_nm)), True, _tpl % json.dumps(_nm, ensure_ascii=False)))
+for _nm in BAD_TYPE_NAMES[:10]:
+    if all(ch.isalnum() for ch in _nm):
+        NAME_RULES.append(("name:type-parameter:%s" % _nm, True, "%s: !record\n  fields:\n    a: %s\n" % (json.dumps("G1<%s>" % _nm, ensure_ascii=False), json.dumps(_nm, ensure_ascii=False))))
 
 POSITIONS = ["alias", "field", "genarg", "vecitem", "mapvalue", "unioncase", "optional", "step", "streamitem", "aliaschain", "arrayitem",
              "untaggedcase", "untaggedopt", "untaggedinvec"]
@@ -292,14 +319,14 @@ def run(ctx):
     jobs = []
     for rid, named, ty, _ in TYPE_RULES:
         jobs.append(("control", rid, named, embed("alias", ty, "Ctl"), True, "alias", None))
-    for rid, named, defs in DEF_RULES:
+    for rid, named, defs in DEF_RULES + NAME_RULES:
         if "Lib." not in defs:
             jobs.append(("control", rid, named, defs, False, "def", None))
     controls = {}
 
     def run_case(job):
         kind, rid, named, defs, helpers, pos, where = job
-        cdir = os.path.join(ctx.workdir, "cases", "%s_%s_%s" % (rid, pos, where or "control"))
+        cdir = os.path.join(ctx.workdir, "cases", "%s_%s_%s" % ("".join(ch if (ch.isascii() and (ch.isalnum() or ch in "-_")) else "_%x" % ord(ch) for ch in rid), pos, where or "control"))
         if kind == "control":
             pkgdir = build_control(cdir, defs, helpers)
             bad_file = bad_dir = None
@@ -354,6 +381,13 @@ def run(ctx):
         if controls.get(rid) != "rejected":
             continue
         for where in wheres + (["main-link", "main-doc2", "version-multi-first", "version-multi-last"] if "\n---\n" not in defs else []):
+            jobs.append(("inject", rid, named, defs, False, "def", where))
+    for ni, (rid, named, defs) in enumerate(NAME_RULES):
+        if controls.get(rid) != "rejected":
+            continue
+        for wi, where in enumerate(("main", "main2", "import", "version")):
+            if quick and (ni + wi) % 4:
+                continue
             jobs.append(("inject", rid, named, defs, False, "def", where))
 
     for job, cdir, pkgdir, bad_file, bad_dir, res in pmap(run_case, jobs):
